@@ -718,6 +718,9 @@ func TestC20(t *testing.T) {
 	g := c20Grow
 	g.Checks = n(6, 80)
 	g.Run(t)
+	f := c20First
+	f.Checks = n(6, 120)
+	f.Run(t)
 	if cfg.Shard == 0 {
 		extra := 6000
 		if err := guard(func() error { return c20Big(extra) }); err != nil {
